@@ -46,7 +46,7 @@ class Check:
     shrink_runs = 200
     rule = ('scenario = generated project (top + subproject) with install_data (rename, install_mode, install_tag, relative/absolute/default '
             'install_dir, symbolic links among the sources with follow_symlinks), install_headers(subdir), install_man, install_subdir (nested tree, exclude_files/exclude_directories, '
-            'strip_directory), install_emptydir, install_symlink, installed custom_target outputs and compiled build targets; names with spaces and non-ASCII; prefix, install_umask incl. preserve; '
+            'strip_directory), install_emptydir, install_symlink, installed custom_target outputs (also several outputs with one install_dir/install_tag each, `false` = not installed), installed configure_file() outputs and compiled build targets; names with spaces and non-ASCII; prefix, install_umask incl. preserve; '
             '+ a history of install / reinstall / --only-changed / --dry-run / --tags / --skip-subprojects / uninstall steps with '
             'simulator-chosen ambient umask, mtime skew (source older/equal/newer than the installed copy), pre-populated DESTDIR and '
             'DESTDIR given through the environment or --destdir (absolute or relative), and an obstacle fault (a directory of the user where a '
@@ -197,6 +197,26 @@ class Check:
                 seen |= {p for p, it in t.items.items() if it[0] == 'dir' and p.endswith(os.path.basename(rule['path']))}
             uniq_rules.append(rule)
         spec['rules'] = uniq_rules or spec['rules'][:1]
+        # ---- added late, drawn from a stream of their own so that the scenarios of earlier versions stay what they were:
+        # custom targets with several outputs (install_dir / install_tag per output, `false` = not installed) and
+        # installed configure_file() outputs
+        rx = prng.derive(prng.base_seed(), 'c11-extra', tier, index)
+        for r_ in spec['rules']:
+            if r_['kind'] == 'ctarget' and rx.random() < 0.5:
+                r_['outs'] = [{'name': f"gx{r_['id']}_{k}" + rx.choice(['.dat', ' x.bin']),
+                               'dir': rx.choice([False, f"share/gx{r_['id']}", 'libexec/gen', f"/opt/gx {r_['id']}", r_['dir']]),
+                               'tag': rx.choice(tagset)} for k in range(rx.randint(1, 3))]
+                r_['dir_listed'] = True
+                if all(o['dir'] == r_['dir'] and o['tag'] == r_.get('tag') for o in r_['outs']) and rx.random() < 0.5:
+                    r_['dir_listed'] = False           # one install_dir / install_tag for all the outputs
+        if rx.random() < 0.3:
+            for k in range(rx.randint(1, 2)):
+                i = 300 + k
+                spec['rules'].append({'kind': 'conf', 'sub': False, 'id': i, 'name': f'cf{i}' + rx.choice(['.cfg', ' gen.txt', '.sh']),
+                                      'how': rx.choice(['copy', 'configuration']),
+                                      'dir': rx.choice([f'share/xconf{i}', '/etc/xconf d', 'share/common', 'libexec/gen']),
+                                      'mode': rx.choice([None, None, 'rw-r-----', 'rwxr-xr-x', 'r--r--r--']),
+                                      'tag': rx.choice(tagset)})
         # ---- history
         steps: T.List[T.Dict[str, T.Any]] = []
         ambient = rng.choice([0o022, 0o022, 0o077, 0o002])
@@ -234,6 +254,16 @@ class Check:
             # the predefined tags of build targets (runtime / devel, alias links) only show under --tags
             st = {'op': 'install', 'tags': rng.choice(['runtime', 'devel', 'runtime,t1', 'devel,man']), 'quiet': False}
             steps.insert(0 if rng.random() < 0.5 else len(steps), st)
+        # (extra stream) selection options combined in one command: --tags with --skip-subprojects, either with --only-changed
+        for st in steps:
+            if st.get('op') != 'install' or st.get('block') is not None or st.get('dry_run'):
+                continue
+            if st.get('tags') and 'skip_subprojects' not in st and rx.random() < 0.5:
+                st['skip_subprojects'] = rx.choice(['*', IR.SUB, IR.SUB, 'other'])
+            elif st.get('skip_subprojects') and 'tags' not in st and rx.random() < 0.5:
+                st['tags'] = rx.choice(['t1', 't2', 't1,t2', 'devel', 'runtime,devel'])
+            if (st.get('tags') or st.get('skip_subprojects')) and not st.get('only_changed') and rx.random() < 0.15:
+                st['only_changed'] = True
         return {'kind': 'c11', 'spec': spec, 'have_sub': have_sub, 'steps': steps, 'ambient_umask': ambient, 'destmode': destmode, 'prepopulate': prepop}
 
     # ------------------------------------------------------------------ project on disk
@@ -337,11 +367,33 @@ class Check:
                         kw.append(f"soversion: {q(rule['soversion'])}")
                     fn = 'shared_library' if rule['ttype'] == 'shlib' else 'static_library'
                     out.append(f"{var} = {fn}({q(n)}, {q(cname)}{''.join(', ' + x for x in kw)})\n")
+            elif k == 'ctarget' and rule.get('outs'):
+                outs = [{'name': rule['name'], 'dir': rule['dir'], 'tag': rule.get('tag')}] + rule['outs']
+                kw = []
+                if rule.get('dir_listed', True):
+                    kw.append('install_dir: [' + ', '.join(q(o['dir']) if o['dir'] else 'false' for o in outs) + ']')
+                    if any(o['tag'] for o in outs):
+                        kw.append('install_tag: [' + ', '.join(q(o['tag']) if o['tag'] else 'false' for o in outs) + ']')
+                else:
+                    kw.append(f"install_dir: {q(rule['dir'])}")
+                    if rule.get('tag'):
+                        kw.append(f"install_tag: {q(rule['tag'])}")
+                if rule.get('mode'):
+                    kw.append(f"install_mode: {q(rule['mode'])}")
+                out.append(f"custom_target({q('ct%d' % rule['id'])}, output: {lst([o['name'] for o in outs])}, command: ['true'], install: true{''.join(', ' + x for x in kw)})\n")
             elif k == 'ctarget':
                 kw.append(f"install_dir: {q(rule['dir'])}")
                 if rule.get('mode'):
                     kw.append(f"install_mode: {q(rule['mode'])}")
                 out.append(f"custom_target({q('ct%d' % rule['id'])}, output: {q(rule['name'])}, command: ['true'], install: true{''.join(', ' + x for x in kw)})\n")
+            elif k == 'conf':
+                kw.append(f"install_dir: {q(rule['dir'])}")
+                if rule.get('mode'):
+                    kw.append(f"install_mode: {q(rule['mode'])}")
+                inp = f"cf{rule['id']}.in"
+                mkfile(root, inp, IR.conf_input(rule), False)
+                how = 'copy: true' if rule['how'] == 'copy' else "configuration: {'WHO': 'meson'}"
+                out.append(f"configure_file(input: {q(inp)}, output: {q(rule['name'])}, {how}, install: true{''.join(', ' + x for x in kw)})\n")
             elif k == 'emptydir':
                 if rule.get('mode'):
                     kw.append(f"install_mode: {q(rule['mode'])}")
@@ -410,6 +462,15 @@ class Check:
             with open(pth, 'wb') as f:
                 f.write(IR.content_of('ctarget:' + r_['name']))
             os.chmod(pth, 0o755 if r_.get('exec') else 0o644)
+            for o in r_.get('outs', []):
+                po = os.path.join(bd, o['name'])
+                self.ctarget_paths.append(po)
+                with open(po, 'wb') as f:
+                    f.write(IR.content_of('ctarget:' + o['name']))
+                os.chmod(po, 0o644)
+        for r_ in spec['rules']:
+            if r_['kind'] == 'conf':
+                self.ctarget_paths.append(os.path.join(bd, r_['name']))     # written by the configuration itself
         self.target_files: T.Dict[str, T.Tuple[str, T.Optional[str]]] = {}     # file name -> (path in the build dir, expected RUNPATH)
         if targets:
             # the compiled targets are built for real, by the reference executor of C05 (ninja itself is a stub)
@@ -686,8 +747,8 @@ class Check:
             # (f) --only-changed: a destination at least as new as its source was left untouched
             if oc:
                 for p, ns in before_mtimes.items():
-                    if p in pre:
-                        continue
+                    if p in pre or p not in exp:
+                        continue                   # (not selected by --tags / --skip-subprojects in this step: nothing is decided about it)
                     src = self.source_of(spec, sc.get('have_sub', False), destdir, sd, p)
                     if src is None or not os.path.exists(src) or p not in after:
                         continue
@@ -811,8 +872,8 @@ class Check:
             root = os.path.join(sd, 'subprojects', IR.SUB) if r.get('sub') else sd
             t = IR.expected_tree({'prefix': spec['prefix'], 'umask': spec['umask'], 'rules': [r]}, destdir, {}, 0o022)
             if dst in t.items and t.items[dst][0] == 'file':
-                if r['kind'] == 'ctarget':
-                    return os.path.join(os.path.dirname(sd), 'bd', r['name'])
+                if r['kind'] in ('ctarget', 'conf'):
+                    return os.path.join(os.path.dirname(sd), 'bd', os.path.basename(dst))
                 if r['kind'] == 'target':
                     return os.path.join(os.path.dirname(sd), 'bd', IR.target_files(r)[0])
                 if r['kind'] == 'subdir':
